@@ -8,7 +8,8 @@ LEVEL = "exploration"
 RULE = ("seeded random logical datasets x every maskable operation (8 reductions, var/std, median/quantile, cumulative, "
         "rolling, shift/diff, EMA plain and timed) x mask kinds (bool array/Series, slice incl. negative bounds, integer "
         "positions incl. repeated/unsorted/negative for reductions). Each case runs the real call three times: with the mask, "
-        "on the filtered rows without a mask, and with the unselected rows' values perturbed. distinct = case digests; "
+        "on the filtered rows without a mask, and with the unselected rows' values perturbed; about a third of the cases run all "
+        "three calls on the multi-threaded or the chunk-wise key route (scaled thresholds). distinct = case digests; "
         "non-trivial = the mask is present, selects at least one row with a non-null key and leaves at least one row out")
 ASSUMPTIONS = [
     "row-aligned operations are driven with boolean masks only (the only kind they document); reductions with all kinds",
@@ -25,7 +26,7 @@ def plan(tier):
 
 
 def required_counters(tier):
-    return ["mask_emptied_group", "mask_all_false", "perturbed_runs", "row_aligned_cases", "slice_negative", "pos_repeated"]
+    return ["mask_emptied_group", "mask_all_false", "perturbed_runs", "row_aligned_cases", "slice_negative", "pos_repeated", "strategy:threads", "strategy:chunked_keys"]
 
 
 def features(case):
@@ -59,6 +60,18 @@ def nontrivial(case):
 
 
 def check(case, ctx):
+    st = case.get("strategy")
+    if not st:
+        return _check(case, ctx)
+    ctx.count("strategy:" + ("threads" if "rows_per_thread" in st else "chunked_keys"))
+    lib.set_strategy(**st)
+    try:
+        return _check(case, ctx)
+    finally:
+        lib.reset_strategy()
+
+
+def _check(case, ctx):
     fails = []
     n, op = case["n"], case["op"]
     m = case["mask"]
@@ -110,5 +123,25 @@ def check(case, ctx):
     return fails
 
 
+def gen_case(rng, dtypes):
+    case = common.gen_opcase(rng, OPS, dtypes)
+    case["pseed"] = int(rng.integers(1 << 30))
+    n = case["n"]
+    r = rng.random()
+    # the multi-threaded and chunk-wise routes split masks differently: drive the same relation there
+    if r < 0.2 and case["op"] in ops.RED + ["var", "std"]:
+        case["strategy"] = {"rows_per_thread": max(1, n // int(rng.integers(2, 5)))}
+    elif r < 0.35 and len(case["keys"]) == 1 and case["keys"][0]["kind"] != "cat" and n >= 4:
+        case["strategy"] = {"chunk_threshold": int(gen.pick(rng, [2, 4])), "key_chunks": int(rng.integers(2, 5))}
+    return case
+
+
 def run(ctx):
-    common.run_generic(ctx, "C05", OPS, check, features, nontrivial, N_CASES)
+    err = model.selfcheck() if ctx.shard == 0 else None
+    if err:
+        raise RuntimeError(err)
+    dtypes = common.ALL_DTYPE_SHARDS[ctx.shard % len(common.ALL_DTYPE_SHARDS)]
+    rng = gen.rng_for(ctx.seed, "C05", ctx.shard, 1 if ctx.mode != "prod" else 0)
+    ncases = N_CASES[ctx.tier] if ctx.mode == "prod" else max(50, N_CASES[ctx.tier] // 3)
+    for _ in range(ncases):
+        ctx.run_case(gen_case(rng, dtypes), check, features, nontrivial, common.shrink)
